@@ -11,6 +11,17 @@ CHECKS = [
         "note": "trusted: ref/bls.py; bounded by depth, leaf alphabet, divisor range of the tier",
     },
     {
+        "property_id": "C02",
+        "level": "exploration",
+        "design_ref": "DESIGN.md 4/C02",
+        "technique": "bounded-exhaustive enumeration of type descriptions (all shapes up to depth/size bound, boundary capacities) against a reference layout model",
+        "text": "Every type description of the bounded grammar (all widths, capacities 1..3 plus the 2**8/2**16/2**32 boundaries, every field "
+        "order of <=3 fields / variants, sealed and delimited, nesting depth 2 quick / 3 thorough) is built with the public constructors "
+        "(a stated subset also from DSDL text) and its bit_length_set, alignment, extent, prefix/tag/header widths are compared with "
+        "ref.layout; extent admissibility is probed on both sides of the boundary.",
+        "note": "trusted: ref/layout.py (explicit cursor semantics, cross-checked with the analytic tree) and ref/bls.py",
+    },
+    {
         "property_id": "C03",
         "level": "model_checking",
         "design_ref": "DESIGN.md 4/C03",
